@@ -21,9 +21,11 @@ def step (_ : Unit) (w : List String) : Unit × List String :=
       let r := Rand.rand31_r (BitVec.ofNat 32 (nat! s))
       ((), [s!"{r.1.toNat} {r.2.toNat}"])
   | ["rotenc", ls, c, ic, st] =>
-      let r := Rotenc.rotenc_decode (BitVec.ofNat 8 (nat! ls)) (BitVec.ofNat 8 (nat! c)) (BitVec.ofNat 16 (nat! ic)) (BitVec.ofNat 8 (nat! st))
+      -- field widths are whatever the generated signature says (`BitVec.ofNat _`)
+      let r := Rotenc.rotenc_decode (BitVec.ofNat _ (nat! ls)) (BitVec.ofNat _ (nat! c)) (BitVec.ofNat _ (nat! ic)) (BitVec.ofNat _ (nat! st))
       let c14 := Rotenc.rotenc_count14 r.1 r.2.1 r.2.2
-      ((), [s!"{r.1.toNat} {r.2.1.toNat} {r.2.2.toNat} {c14.1.toNat}"])
+      let c8 := Rotenc.rotenc_count r.1 r.2.1 r.2.2
+      ((), [s!"{r.1.toNat} {r.2.1.toNat} {r.2.2.toNat} {c14.1.toNat} {c8.1.toNat}"])
   | ["cyclecmp32", a, b] => ((), [toString (Util.cyclecmp32 (BitVec.ofNat 32 (nat! a)) (BitVec.ofNat 32 (nat! b))).toInt])
   | _ => ((), ["bad-op"])
 
